@@ -148,3 +148,42 @@ def Cursor.remove (c : Cursor) (m : OrdMap) : Stat × Option Nat × Cursor × Or
 
 end OrdMap
 end CC.Spec
+
+/-! ## ordered set: the key list of an ordered map whose values are all the same dummy -/
+namespace CC.Spec.OrdSet
+open CC.Spec.OrdMap (Out)
+
+/-- the value `cc_treeset` stores with every element (`(int*) 1`) -/
+def dummy : Nat := 1
+
+inductive Op where
+  | add (e : Nat) | remove (e : Nat) | removeAll | contains (e : Nat) | size
+  | first | last | greaterThan (e : Nat) | lesserThan (e : Nat) | foreach
+  deriving Repr, DecidableEq
+
+/-- the table operation a set operation is implemented by -/
+def toMapOp : Op → OrdMap.Op
+  | .add e => .add e dummy
+  | .remove e => .remove e
+  | .removeAll => .removeAll
+  | .contains e => .containsKey e
+  | .size => .size
+  | .first => .firstKey
+  | .last => .lastKey
+  | .greaterThan e => .greaterThan e
+  | .lesserThan e => .lesserThan e
+  | .foreach => .foreachKey
+
+/-- the set API reports an absent element as `CC_ERR_VALUE_NOT_FOUND` -/
+def mapStat : Stat → Stat
+  | .errKeyNotFound => .errValueNotFound
+  | s => s
+
+/-- one step of the ideal ordered set (represented as a map to `dummy`); `remove` hands back the
+removed element -/
+def step (cmp : Nat → Nat → Int) (m : OrdMap) (op : Op) (refused : Bool) : Out × OrdMap :=
+  let r := OrdMap.step cmp m (toMapOp op) refused
+  ({ r.1 with st := r.1.st.map mapStat,
+              val := match op with | .remove e => r.1.val.map (fun _ => e) | _ => r.1.val }, r.2)
+
+end CC.Spec.OrdSet
